@@ -200,13 +200,16 @@ func (m *Manager) SetSubscriberQoS(qos *SubscriberQoS) error {
 		Priority:   qos.Priority,
 	}
 
-	// Create ingress (upload) token bucket
-	uploadBurst := uint32(qos.UploadBPS / 8)
-	if uploadBurst < 65536 {
-		uploadBurst = 65536
-	}
-	if uploadBurst > 10*1024*1024 {
-		uploadBurst = 10 * 1024 * 1024
+	// Create ingress (upload) token bucket; a configured burst applies to both directions
+	uploadBurst := qos.BurstBytes
+	if uploadBurst == 0 {
+		uploadBurst = uint32(qos.UploadBPS / 8)
+		if uploadBurst < 65536 {
+			uploadBurst = 65536
+		}
+		if uploadBurst > 10*1024*1024 {
+			uploadBurst = 10 * 1024 * 1024
+		}
 	}
 
 	ingressTB := &TokenBucket{
